@@ -17,12 +17,11 @@ import GaeaVerif.Gen.Consts
 
     verify_never_panics            Namespace.Verify returns (ok or an error) on every configuration
     verify_implies_load            accepted ⇒ NewRouter returns a router (no error, no panic)
-    routing_table_unambiguous      every stored rule: sub tables strictly ascending (listed once),
-                                   tableToSlice defined exactly on them, slice indexes inside the
-                                   rule's slice list (non-global rules), slices are namespace slices
-    global_slices_partial          the same bound for global rules, under the hypothesis that
-                                   excludes the open finding global-slice-index-out-of-range
-    global_slice_index_witness     the open finding, on the model
+    routing_table_unambiguous      every stored rule (global rules included): sub tables strictly
+                                   ascending (listed once), tableToSlice defined exactly on them, slice
+                                   indexes inside the rule's slice list, slices are namespace slices,
+                                   one database per listed table for Mycat and global rules
+    pinned_global_slice_index_witness  what NewRouter did to a global rule before c29cd53
     shard_fn_in_range              hash, mod, range, mycat_long/string/murmur/padding_mod: for every
                                    key FindTableIndex never panics and an index it returns is listed
     mycatMod_in_range_partial      mycat_mod: the same for keys other than MinInt64
@@ -125,8 +124,9 @@ structure RuleUnambiguous (names : List Str) (b : BaseRule) : Prop where
   ascending : b.subTableIndexes.Pairwise (· < ·)
   /-- `tableToSlice` is defined exactly on the listed sub tables -/
   defined : ∀ i, i ∈ b.subTableIndexes ↔ (mapGet b.tableToSlice i).isSome
-  /-- … with a slice index that `GetSlice` resolves (rules other than global ones) -/
-  slice : rtOf b.ruleType ≠ .global → ∀ i v, mapGet b.tableToSlice i = some v → 0 ≤ v ∧ v < b.slices.length
+  /-- … with a slice index that `GetSlice` resolves (every rule type; for global
+      rules this needed fix c29cd53) -/
+  slice : ∀ i v, mapGet b.tableToSlice i = some v → 0 ≤ v ∧ v < b.slices.length
   /-- … to a slice of the namespace -/
   known : ∀ s ∈ b.slices, s ∈ names
   /-- a Mycat or global rule names one physical database per listed sub table
@@ -141,32 +141,21 @@ theorem mem_of_includeSlice {names : List Str} {s : Str} (h : includeSlice names
   subst he; exact hx
 
 theorem parsed_rule_unambiguous (names : List Str) (s : Shard) (hs : s.slices.all (includeSlice names) = true)
-    (b : BaseRule) (hb : parseRule s = .ok b) : RuleUnambiguous names (useNamespaceSlices names b) := by
+    (b : BaseRule) (hb : parseRule s = .ok b) : RuleUnambiguous names b := by
   have sp := parseRule_spec s b hb
-  have uf := useNamespaceSlices_fields names b
   obtain ⟨hasc, hkeys, hrange⟩ := sp.2.2.2.2.1
-  have hdbs : (useNamespaceSlices names b).mycatDatabases = b.mycatDatabases := by
-    unfold useNamespaceSlices; split <;> rfl
-  refine ⟨?_, ?_, ?_, ?_, ?_⟩
-  rotate_right
-  · intro hm
-    rw [uf.2.2.1, sp.2.2.1] at hm
-    rw [hdbs, uf.2.2.2.1]
-    exact parseRule_databases s b hb hm
-  · rw [uf.2.2.2.1]; exact hasc
+  refine ⟨hasc, ?_, ?_, ?_, ?_⟩
   · intro i
-    rw [uf.2.2.2.1, uf.2.2.2.2.1, mapGet_isSome_iff, hkeys]
-  · intro hng i v hv
-    rw [uf.2.2.1] at hng
-    rw [uf.2.2.2.2.1] at hv
-    rw [uf.2.2.2.2.2.2, if_neg hng, sp.2.2.2.1]
+    rw [mapGet_isSome_iff, hkeys]
+  · intro i v hv
+    rw [sp.2.2.2.1]
     exact hrange (i, v) (mapGet_mem _ _ _ hv)
   · intro x hx
-    rw [uf.2.2.2.2.2.2] at hx
-    split at hx
-    · exact hx
-    · rw [sp.2.2.2.1] at hx
-      exact mem_of_includeSlice (List.all_eq_true.mp hs x hx)
+    rw [sp.2.2.2.1] at hx
+    exact mem_of_includeSlice (List.all_eq_true.mp hs x hx)
+  · intro hm
+    rw [sp.2.2.1] at hm
+    exact parseRule_databases s b hb hm
 
 /-- In the router built by `NewRouter`, every stored rule (the rule a linked
     rule links to, for a linked rule) lists each sub table exactly once, maps
@@ -178,30 +167,6 @@ theorem routing_table_unambiguous (n : Namespace) (r : Router) (h : newRouter n 
   have hall := newRouter_all (RuleUnambiguous (sliceNames n)) n r
     (fun s _ hs b hb => parsed_rule_unambiguous (sliceNames n) s hs b hb) h
   exact hall (k, rule) (lookup_mem _ _ _ hk)
-
-/-- For a global rule `NewRouter` replaces the rule's slice list by the
-    namespace's.  If no global rule configures more slices than the namespace
-    has, the slice indexes of global rules are in range as well.
-    (Full statement, false of the pinned code: the same without `hglobal`; see
-    `global_slice_index_witness`.) -/
-theorem global_slices_partial (n : Namespace) (r : Router) (h : newRouter n = .ok r)
-    (hglobal : ∀ s ∈ n.shardRules, rtOf s.typ = .global → s.slices.length ≤ n.slices.length)
-    (k : Str × Str) (rule : Rule) (hk : r.get k = some rule) (hg : rtOf rule.target.ruleType = .global) :
-    ∀ i v, mapGet rule.target.tableToSlice i = some v → 0 ≤ v ∧ v < rule.target.slices.length := by
-  have hall := newRouter_all
-    (fun b => rtOf b.ruleType = .global → ∀ i v, mapGet b.tableToSlice i = some v → 0 ≤ v ∧ v < b.slices.length) n r
-    (by
-      intro s hsm _ b hb hgl i v hv
-      have sp := parseRule_spec s b hb
-      have uf := useNamespaceSlices_fields (sliceNames n) b
-      rw [uf.2.2.1] at hgl
-      rw [uf.2.2.2.2.1] at hv
-      rw [uf.2.2.2.2.2.2, if_pos hgl]
-      have hr := sp.2.2.2.2.1.range (i, v) (mapGet_mem _ _ _ hv)
-      have hlen := hglobal s hsm (by rw [← sp.2.2.1]; exact hgl)
-      simp only [sliceNames, List.length_map]
-      omega) h
-  exact hall (k, rule) (lookup_mem _ _ _ hk) hg
 
 /-! ### the sharding function only names listed tables -/
 
@@ -221,10 +186,7 @@ theorem shard_fn_in_range (n : Namespace) (r : Router) (h : newRouter n = .ok r)
   have hall := newRouter_all (fun b => ShardWF b.shard b.subTableIndexes) n r
     (by
       intro s _ _ b hb
-      have sp := parseRule_spec s b hb
-      have uf := useNamespaceSlices_fields (sliceNames n) b
-      rw [uf.2.2.2.2.2.1, uf.2.2.2.1]
-      exact sp.2.2.2.2.2) h
+      exact (parseRule_spec s b hb).2.2.2.2.2) h
   have hwf := hall (k, rule) (lookup_mem _ _ _ hk)
   exact findForKey_spec bucketOf keyHash _ _ hwf hlen key hkey
     (fun m hm => absurd hm (hnm m)) hprobed
@@ -242,10 +204,7 @@ theorem mycatMod_in_range_partial (n : Namespace) (r : Router) (h : newRouter n 
   have hall := newRouter_all (fun b => ShardWF b.shard b.subTableIndexes) n r
     (by
       intro s _ _ b hb
-      have sp := parseRule_spec s b hb
-      have uf := useNamespaceSlices_fields (sliceNames n) b
-      rw [uf.2.2.2.2.2.1, uf.2.2.2.1]
-      exact sp.2.2.2.2.2) h
+      exact (parseRule_spec s b hb).2.2.2.2.2) h
   have hwf := hall (k, rule) (lookup_mem _ _ _ hk)
   exact findForKey_spec _ _ _ _ hwf hlen key hkey (fun _ _ v hv => hmin v hv) (by rw [hm]; rfl)
 
@@ -303,17 +262,17 @@ example : (Key.int minInt64).WF ∧ (Key.uint (2 ^ 63)).WF ∧ (Key.str ['x']).W
   · unfold Key.WF; omega
 
 set_option maxRecDepth 100000 in
-/-- `global_slices_partial`: its hypothesis holds of `exNamespace`, which has a global rule -/
-example : (∀ s ∈ exNamespace.shardRules, rtOf s.typ = .global → s.slices.length ≤ exNamespace.slices.length) ∧
-    (exRouter.get (exDb, ['g'])).map (fun rule => rtOf rule.target.ruleType) = some .global := by decide
+/-- a global rule is among the rules `routing_table_unambiguous` speaks about -/
+example : (exRouter.get (exDb, ['g'])).map (fun rule => (rtOf rule.target.ruleType, rule.target.slices)) =
+    some (.global, [exS0, exS1]) := by decide
 
 set_option maxRecDepth 100000 in
 /-- `mycatMod_in_range_partial`: a mycat_mod rule and a key that satisfies `hmin` -/
 example : (exRouter.get (exDb, ['m'])).map (fun rule => rule.target.shard) = some (.mycatMod 3) ∧
     numValue (.int (-7)) = .ok (-7) ∧ (-7 : Int) ≠ minInt64 := by decide
 
-/-- Open finding `global-slice-index-out-of-range`: a global rule that lists
-    the slices s1, s0, s0 in a namespace with the two slices s0, s1. -/
+/-- A global rule that lists the slices s1, s0, s0 in a namespace with the two
+    slices s0, s1 (the former open finding `global-slice-index-out-of-range`). -/
 def wNamespace : Namespace :=
   ⟨[exSlice exS0, exSlice exS1], exS0,
    [{ exBlank ['g'] tGlobal with locations := [1, 1, 1], slices := [exS1, exS0, exS0] }]⟩
@@ -323,14 +282,22 @@ def wRouter : Router :=
   | .ok r => r
   | _ => ⟨[], []⟩
 
+/-- what `NewRouter` did to a global rule before c29cd53:
+    `if rule.ruleType == GlobalTableRuleType { rule.slices = sliceNames }` -/
+def pinnedUseNamespaceSlices (names : List Str) (rule : BaseRule) : BaseRule :=
+  if rtOf rule.ruleType = .global then { rule with slices := names } else rule
+
 set_option maxRecDepth 100000 in
-/-- The namespace is accepted and loaded, and its global rule maps sub table 2
-    to slice index 2 of a slice list of length 2 (`GetSlice(2)` panics). -/
-theorem global_slice_index_witness :
+/-- The namespace is accepted and loaded.  With the repaired `NewRouter` its
+    global rule keeps the three configured slices, so slice index 2 of sub
+    table 2 resolves (to s0); the pinned code replaced the slice list by the
+    namespace's two slices and `GetSlice(2)` panicked. -/
+theorem pinned_global_slice_index_witness :
     verify wNamespace = .ok () ∧ newRouter wNamespace = .ok wRouter ∧
     (wRouter.get (exDb, ['g'])).map
-      (fun rule => (rtOf rule.target.ruleType, mapGet rule.target.tableToSlice 2, rule.target.slices.length)) =
-      some (.global, some 2, 2) := by decide
+      (fun rule => (mapGet rule.target.tableToSlice 2, rule.target.slices,
+        (pinnedUseNamespaceSlices (sliceNames wNamespace) rule.target).slices.length)) =
+      some (some 2, [exS1, exS0, exS0], 2) := by decide
 
 /-- mycat_mod on three databases -/
 def mNamespace : Namespace :=
